@@ -1,5 +1,5 @@
 """C03 - do_all / on_each (structural clauses)."""
-from gsa.cfg import Fn, S, is_call, is_assign, walk, lit
+from gsa.cfg import Fn, S, SN, is_call, is_assign, walk, lit
 from gsa import lock as L
 from gsa import rules as R
 from . import wl_locks
@@ -342,8 +342,9 @@ def worker_loop(ctx, fx):
                 if any(inc(fn.ev(q)) for q in h):
                     det.append("element skipped (two increments without an application)")
             # loop condition beg != end
-            loops = [b for b in fn.blocks.values() if (b.get("term") or {}).get("cls") == "ForStmt"]
-            if len(loops) != 1 or S(lit(loops[0]["term"]["cond"])[0]).replace("(", "").replace(")", "") not in ("beg != end",):
+            loops = [b for b in fn.blocks.values() if (b.get("term") or {}).get("cls") in ("ForStmt", "WhileStmt")]
+            inner = [b for b in loops if S(lit(b["term"]["cond"])[0]).replace("(", "").replace(")", "") in ("beg != end", "end != beg")]
+            if len(inner) != 1:
                 det.append("inner loop is not `beg != end`")
         ctx.ob("C03.dowork.applies-once", TC + "::doWork", not det, "; ".join(det), fn.loc(), "doWork", fnkey=f["key"])
 
@@ -381,7 +382,7 @@ def pool(ctx, fx):
             for bid in fn.blocks:
                 br = fn.branch(bid)
                 if br:
-                    out.append(S(br[0], fn.aliases()))
+                    out.append(SN(br[0], fn.aliases()))      # comparison spelling normalised: a > b is b < a
             return out
         gc, gd = guards(c), guards(d)
         second = "(midpoint < this->my_box.wend)"
@@ -536,7 +537,9 @@ def on_each(ctx, fx):
             gn = Fn(g)
             calls = [e for _, e in gn.events(lambda e: e.get("k") == "call" and (e.get("rp") == "fn_ref" or S(e.get("recv")) == "fn_ref"))]
             if len(calls) == 1:
-                a = [S(x) for x in calls[0].get("a", [])]
+                al2 = dict(gn.aliases())
+                al2.update(gn.defs())        # a const local holding getTID() is the same thing
+                a = [S(x, al2) for x in calls[0].get("a", [])]
                 if a == ["getTID()", "numT"]:
                     ok_l = True
                 else:
